@@ -167,16 +167,20 @@ class _ScuDimse:
         return None, None
 
 
-class _ScuSelf:
-    """What _wrap_*_responses use of an Association: dimse.get_msg, lock, _reactor_checkpoint, abort."""
+class _ScuSelf(Association):
+    """What _wrap_*_responses use of an Association: dimse.get_msg, lock, _reactor_checkpoint, abort.  A subclass of
+    the real class (whose __init__ - AE, threads - is not run), so that private helpers the wrappers may call on `self`
+    resolve to the real ones."""
 
-    def __init__(self, msgs):
+    def __init__(self, msgs):    # noqa - deliberately not calling Association.__init__
         self.dimse = _ScuDimse(msgs)
-        self.lock = _NoLock()
+        self._lock_obj = _NoLock()
         self._reactor_checkpoint = _Flag()
         self.aborted = 0
 
-    def abort(self):
+    lock = property(lambda self: self._lock_obj)
+
+    def abort(self, *a, **k):
         self.aborted += 1
 
     def _handle_no_response(self):
@@ -235,7 +239,7 @@ def _scu_drive(gen, stub, code, expect_more):
     functions=["association:Association._wrap_find_responses", "status:code_to_category"],
     bounds="first C-FIND response carries any status in [0, 65535] (solver-symbolic), with or without an Identifier; "
            "query model Patient Root or Repository Query; a Success response is queued behind it",
-    stubs=["Association replaced by a duck-typed object offering dimse.get_msg / lock / _reactor_checkpoint / abort",
+    stubs=["Association subclass whose __init__ is not run, offering dimse.get_msg / lock / _reactor_checkpoint / abort",
            "association.decode replaced by a function returning a fixed Dataset (identifier decoding is C24's subject)"],
     outside="invalid responses, DIMSE timeouts, undecodable identifiers (C24)",
     shards=[{"repo": 0}, {"repo": 1}],
@@ -266,7 +270,7 @@ def scu_find_final(code: int, with_identifier: bool) -> bool:
     functions=["association:Association._wrap_get_move_responses", "status:code_to_category"],
     bounds="first C-GET / C-MOVE response carries any status in [0, 65535] (solver-symbolic), with or without an "
            "Identifier; a Success response is queued behind it",
-    stubs=["Association replaced by a duck-typed object offering dimse.get_msg / lock / _reactor_checkpoint / abort",
+    stubs=["Association subclass whose __init__ is not run, offering dimse.get_msg / lock / _reactor_checkpoint / abort",
            "association.decode replaced by a function returning a fixed Dataset"],
     outside="interleaved C-STORE sub-operations (C19-C23), invalid responses, DIMSE timeouts",
     shards=[{"op": "get"}, {"op": "move"}],
